@@ -82,7 +82,8 @@ BYTESLIKE = [b'', b'abc', b'\xff\xfe', bytearray(b''), bytearray(b'abc'),
              bytearray(b'\xce' * 300), memoryview(b'abc'),
              memoryview(b'GOODBADFE\x01bSxy').cast('H'),
              memoryview(b'abcdefgh').cast('B', (2, 4)),
-             memoryview(b'abcdefgh').cast('I')]
+             memoryview(b'abcdefgh').cast('I'),
+             memoryview(b'abcdefgh')[::2], memoryview(b'abcdefgh')[::-1]]
 
 
 class _Obj:
